@@ -1514,6 +1514,9 @@ insert_list:
             AtomicRunQ(rq).insert_tail(th);
         }
     }
+#ifdef PHOTON_VERIF
+    extern "C" { void (*photon_verif_intr_window)(void* th) = nullptr; }
+#endif
     void thread_interrupt(thread* th, int error_number)
     {
         if (unlikely(!th))
@@ -1522,6 +1525,10 @@ insert_list:
         if (unlikely(state != states::SLEEPING)) {
         out: // may have thread_yield()-ed
             if (state == states::READY && th->error_number == 0) {
+#ifdef PHOTON_VERIF
+                // verification hook: the window between the unlocked test above and the update below
+                if (photon_verif_intr_window) photon_verif_intr_window(th);
+#endif
                 // `th` is not locked here and may have run on since the two tests above (another vCPU):
                 // it may by now sleep in a wait queue and have been handed a mutex / semaphore
                 // (error_number == -1).  Deliver the interrupt only if there is still no pending
